@@ -4,4 +4,5 @@
 EXTENDS H5Logical
 C03Soft == {<<"a">>, <<"b", "a">>}
 C03Shapes == {[dt |-> "i32", dims |-> <<2>>, chunk |-> <<>>, max |-> <<>>, flt |-> ""]}
+AllPaths == Paths
 =============================================================================
